@@ -123,6 +123,14 @@ def handleMsgLayer (args : List String) : String :=
   | el :: ead :: mid :: tok :: draws :: evs =>
     match el.toNat?, ead.toNat?, mid.toNat?, tok.toNat?, parseDraws draws, evs.mapM parseEvent with
     | some el, some ead, some mid, some tok, some draws, some evs =>
+      -- an error reported for a multicast destination address itself (only a failing sendmsg() produces one) ends
+      -- the requests sent there (tokenmanager.py:97-102 compares the request's own remote); the model keys
+      -- multicast requests without a remote and does not cover this
+      let mcDests := evs.filterMap fun e => match e.2 with
+        | some (.submit _ remote true _ _) => some remote
+        | _ => none
+      if evs.any (fun e => match e.2 with | some (.error remote) => mcDests.contains remote | _ => false) then
+        "out-of-model" else
       let s0 := init { exchangeLifetime := el, emptyAckDelay := ead } mid tok (fun i => draws.getD i 0)
       let (gs, tie, sf) := runScript stateStr s0 [] evs
       (if sf.drawIdx > draws.length then "STARVED " else "") ++ (if tie then "TIE " else "") ++ "|".intercalate gs
